@@ -23,6 +23,8 @@ func init() {
 		EnumRule:    "obligations per rule and construct (driver method / switch / parameter)",
 		Assumptions: []string{"pixel-exact rendering, padding bytes and memory safety of the glyph walk in general are not decided", "pitch >= width * bytesPerPixel (quantifier of C19)"},
 		Controls: []Control{
+			{Name: "scroll distance from width*bytesPerPixel instead of the pitch", File: "kernel/device/video/console/vesa_fb.go", Old: "\toffset := cons.fbOffset(0, lines*cons.font.GlyphHeight-cons.offsetY)", New: "\toffset := lines * cons.font.GlyphHeight * cons.width * cons.bytesPerPixel", Expect: "C19.R6"},
+			{Name: "full-width fill collapsed into one run", File: "kernel/device/video/console/vesa_fb.go", Old: "\tpH := height * cons.font.GlyphHeight\n\tswitch cons.bpp {", New: "\tpH := height * cons.font.GlyphHeight\n\tif x == 1 && width == cons.widthInChars {\n\t\tpW, pH = pH*(cons.pitch/cons.bytesPerPixel), 1\n\t}\n\tswitch cons.bpp {", Expect: "C19.R6"},
 			{Name: "drop y > heightInChars in Write", File: "kernel/device/video/console/vesa_fb.go", Old: "if x < 1 || x > cons.widthInChars || y < 1 || y > cons.heightInChars || cons.font == nil {", New: "if x < 1 || x > cons.widthInChars || y < 1 || cons.font == nil {", Expect: "C19.R1"},
 			{Name: "call write8 from Fill", File: "kernel/device/video/console/vesa_fb.go", Old: "\tcase 8:\n\t\tcons.fill8(pX, pY, pW, pH, bg)", New: "\tcase 8:\n\t\tcons.write8(0, bg, bg, pX, pY)\n\t\tcons.fill8(pX, pY, pW, pH, bg)", Expect: "C19.R2"},
 			{Name: "re-introduce x+width-1 (F5, text console)", File: "kernel/device/video/console/vga_text.go", Old: "\tif width > cons.width-x+1 {", New: "\tif x+width-1 > cons.width {", Expect: "C19.R3"},
@@ -303,6 +305,30 @@ func runC19(c *Ctx) {
 							bad = "the clamped " + pn + " can be 0 (origin is 1-based: " + pn + "-1 wraps)"
 							where = append(where, g.posOf(pe[i].From))
 						}
+					}
+				case *ssa.Return:
+					if u.Parent() == fn {
+						uses++
+						bad = "the raw " + pn + " argument is returned"
+						continue
+					}
+					// the return of a spliced clamp helper that hands the argument back:
+					// as for a merge, it must be bounded where it is returned
+					uses++
+					ef := g.FactsAt(g.Idx[u])
+					up := hasFact(ef, func(f Fact) bool {
+						return cmpMatch(f, token.LEQ, func(v ssa.Value) bool { return v == ssa.Value(p) }, func(v ssa.Value) bool { return !dependsOn(v, p) }) ||
+							cmpMatch(f, token.LSS, func(v ssa.Value) bool { return v == ssa.Value(p) }, func(v ssa.Value) bool { return !dependsOn(v, p) })
+					})
+					lo := pn == "width" || pn == "height" || hasFact(ef, func(f Fact) bool {
+						return cmpMatch(f, token.NEQ, func(v ssa.Value) bool { return v == ssa.Value(p) }, isZeroConst) || cmpMatch(f, token.GEQ, func(v ssa.Value) bool { return v == ssa.Value(p) }, func(v ssa.Value) bool { k, ok := constUint64(v); return ok && k >= 1 })
+					})
+					if !up {
+						bad = "the clamped " + pn + " can still be the caller's value on a path on which it has no upper bound"
+						where = append(where, g.posOf(g.Idx[u]))
+					} else if !lo {
+						bad = "the clamped " + pn + " can be 0 (origin is 1-based: " + pn + "-1 wraps)"
+						where = append(where, g.posOf(g.Idx[u]))
 					}
 				default:
 					if m.helperOf(r) != nil {
